@@ -293,6 +293,11 @@ def compare(case, out, model):
             seen.add((sig, kind))
             v.append((sig, what, oracle, kind))
 
+    if out.get("ref_error"):
+        add(f"{PID}/{E}/exception/fresh-fit-raises-{out['ref_error']}",
+            f"a fresh estimator could not be fitted and fingerprinted: {out['ref_error']}: {out.get('ref_msg')}",
+            "fit on a new estimator succeeds and the result predicts", "property")
+        return v
     if out.get("info", {}).get("nu_equiv") is False:
         add(f"{PID}/{E}/nu/none-differs-from-computed-value", "a fresh fit with nu=None differs from a fresh fit "
             "given the value it computes", "model clause: fit uses nu_of p D when nu is None", "correspondence")
